@@ -483,8 +483,10 @@ def j_where_reject(f: str, x: Any, args: list[Any], kw: dict[str, Any], res: Any
         t = args[1]
         if t is None or t is UNDEF or isinstance(t, (bool, float, list, dict)):
             raise Unspecified(f"{f}: nil/undefined/bool/float/compound comparison value (equality not documented here)")
-        if isinstance(t, int) and any(isinstance(e.get(key), (bool, float)) for e in x):
-            raise Unspecified(f"{f}: int compared with bool/float property (equality is another property's business)")
+        if isinstance(t, int) and any(
+            (isinstance(e.get(key), bool) and t in (0, 1)) or (isinstance(e.get(key), float) and e.get(key) == t) for e in x
+        ):
+            raise Unspecified(f"{f}: int compared with an equal-valued bool/float property (equality is another property's business)")
         match: Callable[[Any], bool] = lambda v: same(v, t)  # noqa: E731
     else:
         match = truthy
@@ -661,6 +663,8 @@ def _num_result(f: str, feature: str, val: Any, want_type: Optional[type], want:
     if not is_num(val):
         return [("arith:type", feature, f"{f}: returned {show(val)} ({type(val).__name__}), expected a number")]
     if val != want:
+        if isinstance(want, float) and isinstance(val, float) and abs(val - want) <= math.ulp(want):
+            feature += ":off-by-one-ulp"
         return [("arith:value", feature, f"{f}: returned {val!r}, exact arithmetic gives {want!r}")]
     if want_type is not None and type(val) is not want_type:
         return [("arith:type", feature, f"{f}: returned {val!r} ({type(val).__name__}), expected {want_type.__name__}")]
@@ -711,7 +715,9 @@ def j_math_binary(f: str, x: Any, args: list[Any], kw: dict[str, Any], res: Any,
         return _num_result(f, feature, val, want_type, want)
     val, fails = _value(f, res)
     if fails:
-        return fails
+        # discriminating input feature: Decimal's default context holds 28 significant digits
+        big = f in ("divided_by", "modulo") and abs(fa / fb) >= 10**28
+        return [(c, ("quotient>=10**28:" if big else "") + ft, m) for c, ft, m in fails]
     want = int(q) if ints else float(q)
     return _num_result(f, feature, val, want_type, want)
 
